@@ -229,6 +229,22 @@ def run(R):
                         "a provider failure caught as %s completes the future with that exception" % (q.src(h_.type) if h_.type else "anything"),
                         "the handler for %s leaves without completing the future: it stays uncomputed, the provider runs again on every value(), "
                         "and each call reports a different error object" % (q.src(h_.type) if h_.type else "anything"), fcfg_.fmt_path(p_) if p_ else None)
+                # error() reports the outcome by returning it: either it shields its _compute() call, or the provider's failure,
+                # once stored, does not leave _compute as an exception (value() raises it through raise_if_error())
+                em_ = fb.methods.get("error")
+                shielded_ = em_ is not None and all(any(kit.handler_covers(hh, "Exception", hier_) for tt in kit.enclosing_try_handlers(cc) for hh in tt.handlers)
+                                                    for nn, cc in kit.call_sites(em_, lambda c: q.call_name(c) == "self._compute"))
+                pr_ = fcfg_.find_path(stores_, [fcfg_.raise_exit], N) if stores_ else None
+                R.check(shielded_ or pr_ is None, "C10.CONSISTENT", "%s:handler:%s:error-returns" % (fc.qualname, q.src(h_.type) if h_.type else "all"), R.site(fc, h_),
+                        "a provider failure that has been stored is not raised again by _compute(): the first error() returns it like every later one",
+                        "the handler stores the provider's exception and raises it again: the first error() call on the future raises the exception "
+                        "that every later error() call returns - error() does not report one outcome", fcfg_.fmt_path(pr_) if pr_ else None)
+    # the provider's exception is a user object: bookkeeping stored on it (prepare_for_reraise) may be refused, and a refusal
+    # inside the handler that completes the future leaves it uncomputed
+    from .c02 import stamp_contained
+    stamp_contained(R, ro, hier_, "C10.COMPUTE-ONCE", classes=list(dict((c.qualname, c) for c in [fut, fb] + [c for c in repo.subclasses(fb, strict=True) if c.module.name == "futures"]).values()), min_n=0)
+    # value() of a task is wait_for(): it returns only when the task is computed (a future is never handed out half done)
+    common.wait_for_exits(R, ro, "C10.COMPUTE-ONCE")
     # ---- COMPUTE-ONCE
     for mname in ("value", "error"):
         m = fb.methods.get(mname)
